@@ -71,6 +71,7 @@ def run_scenario(policy, mn, mx, progs, monitor=None, max_steps=4000):
     run.worker_tid = {}       # creation index -> sched tid
     run.max_seen = 0
     run.close_returned = False
+    run.in_process = None
     run.closed_set = False
     sc = None
     base_policy = policy
@@ -159,7 +160,6 @@ def run_scenario(policy, mn, mx, progs, monitor=None, max_steps=4000):
                 rec["runs"] += 1
                 rec["ran_by"].append(run.workers.index(threading.current_thread())
                                      if threading.current_thread() in run.workers else None)
-                rec["started_after_close_returned"] = rec["started_after_close_returned"] or False
                 run.events.append(("start", k))
                 job_events[k].wait()
                 if td.on:
@@ -179,9 +179,9 @@ def run_scenario(policy, mn, mx, progs, monitor=None, max_steps=4000):
                         k = len(run.jobs)
                         rec = {"status": "?", "worker": None, "runs": 0, "ended": 0, "ran_by": [],
                                "busy_at_refusal": None, "after_close": run.close_returned,
-                               "started_after_close_returned": False}
+                               "max_active": active_workers(run)}
                         run.jobs.append(rec)
-                        before = set(set.__iter__(pool.busy))
+                        run.in_process = k
                         try:
                             pool.process(make_job(k))
                             rec["status"] = "a"
@@ -197,6 +197,7 @@ def run_scenario(policy, mn, mx, progs, monitor=None, max_steps=4000):
                         except Exception as e:      # noqa: an internal error of process() is an outcome
                             rec["status"] = "E:" + type(e).__name__
                             run.events.append(("error", k, type(e).__name__))
+                        run.in_process = None
                     elif op[0] == "F":
                         job_events[op[1]].set()
                         run.events.append(("fin", op[1]))
@@ -245,11 +246,16 @@ def worker_phase(run, idx):
     if t.state == "done":
         return "X"
     lab = t.label
-    if isinstance(lab, tuple) and lab[0] == "waiting" and t.pred is not None:
+    if isinstance(lab, tuple) and lab[0] == "waiting" and t.pred is not None and not t.pred():
         if lab[1].startswith("job"):
             return "R" + lab[1][3:]
         return "I"
     return "P"
+
+
+def active_workers(run):
+    """worker threads that are alive and not blocked waiting for a job"""
+    return sum(1 for i in range(len(run.workers)) if i in run.worker_tid and worker_phase(run, i) not in ("X", "I"))
 
 
 def snapshot(run):
